@@ -165,7 +165,7 @@ func H_C15_refresh() {
 }
 
 //verif:witness H_C15_inject end
-//verif:bound C15 all attribute resolution through the real Refresh for an AsyncLogger: each of bufferSize / bufferFullPolicy / level present or absent (declared defaults), values from well-typed literals incl. hex and padded forms, ${key} indirection, key spelling camelCase / kebab-case / snake_case, flat keys vs the inline 'logger.l1!' expression form; the created plugin's fields are compared with the configured value, else the declared default
+//verif:bound C15 all attribute resolution through the real Refresh for an AsyncLogger: each of bufferSize / bufferFullPolicy / level present or absent (declared defaults), values from well-typed literals incl. hex, padded forms and '1dd' with two arbitrary decimal digits, ${key} indirection, key spelling camelCase / kebab-case / snake_case, flat keys vs the inline 'logger.l1!' expression form; the created plugin's fields are compared with the configured value, else the declared default
 
 func vSpell(key string, mode int) string {
 	// key is camelCase; produce kebab-case or snake_case
@@ -208,7 +208,12 @@ func H_C15_inject() {
 	wantLevel := LevelRange{MinLevel: NoneLevel, MaxLevel: MaxLevel}
 	cfg := map[string]string{"appender.a1.type": "Rec"}
 	if vChoose("hasSize", 2) == 1 {
-		switch vChoose("size", 3) {
+		switch vChoose("size", 4) {
+		case 3:
+			// "1dd" with two arbitrary decimal digits
+			d := vString("digits", 2)
+			vAssume('0' <= d[0] && d[0] <= '9' && '0' <= d[1] && d[1] <= '9')
+			attrs, wantSize = append(attrs, attr{"bufferSize", "1" + d}), 100+10*int(d[0]-'0')+int(d[1]-'0')
 		case 0:
 			attrs, wantSize = append(attrs, attr{"bufferSize", "100"}), 100
 		case 1:
